@@ -413,9 +413,9 @@ class C13(RexDriver):
         if exc is not None:
             R.nontrivial = True
             R.out('hist-raises:%s' % type(exc).__name__)
-            R.viol('%sraises:%s:opts=%s'
+            R.viol('%sraises:%s:el=%s'
                    % ('history-dependent:' if exc0 is None else '',
-                      type(exc).__name__, A.opt_key(opts)),
+                      type(exc).__name__, opts.get('extra_letters')),
                    'extract-returns',
                    dict(detail, exception=repr(exc)[:300]), sub)
             return
@@ -433,8 +433,8 @@ class C13(RexDriver):
                     continue
                 done.add(kind)
                 if kind not in fresh_bad:
-                    sig = 'history-dependent:%s:opts=%s' % (kind,
-                                                            A.opt_key(opts))
+                    sig = 'history-dependent:%s:el=%s' % (
+                        kind, opts.get('extra_letters'))
                 else:
                     def fails(s2, o2, _kind=kind):
                         self.fresh_state()
